@@ -35,6 +35,7 @@ RULE_DOC = {
     'R11': 'tail expression `E.iter().find(|v| C).map(|w| R)` -> `for i in 0..E.len() { let v = &E[i]; if C { return Some(R) } } None` (std: first element accepted by the predicate; closure bodies verbatim)',
     'R12': 'tail expression `E.iter().any(|v| C)` -> `for i in 0..E.len() { let v = &E[i]; if C { return true } } false`',
     'R13': '`for x in &mut E {` -> `for i in 0..E.len() { let x = &mut E[i];` (std: iter_mut visits the elements in index order)',
+    'R14': '`let n = E.iter().position(|v| C)?;` -> loop remembering the first index accepted by C, then `let n = found?;`',
     'R10': 'a closure passed to Vec::retain gets a parameter type, a named bool result and braces (`|t| E` -> `|t: T| -> (r: bool) { E }`) so that requires/ensures can be attached; the body is verbatim',
     'R7': '`x op= e` / method sugar spelled out where Verus lacks the operator form (recorded per site)',
     'E1': 'foreign field/param types replaced by a declared stand-in with an assumed contract (FxHashMap/FxHashSet -> std HashMap/HashSet, opaque ArcStr/Term ...)',
@@ -302,6 +303,29 @@ class Piece:
     def R13(self):
         """`for x in &mut E {` -> `for i in 0..E.len() { let x = &mut E[i];` (std: iter_mut visits the elements in index order)"""
         return self.resub('R13', r'for (\w+) in &mut ([\w\.]+) \{', r'for i__ in 0..\2.len() { let \1 = &mut \2[i__];')
+
+    def R14(self, var):
+        """`let N = E.iter().position(|v| C)?;` -> loop remembering the first index accepted by C, then `let N = found?;`
+        (C is evaluated on later elements too: it must be side-effect free, which is checked by Verus - it is called in exec code with no &mut)"""
+        text = self.text
+        code = scan(text)
+        m = re.search(r'let %s = ([\w\.\s]+?)(?=\s*\.iter\(\))' % re.escape(var), text)
+        if not m:
+            raise LostAnchor('rule R14 in %s: `let %s = <seq>.iter().position(..)?` not found' % (self.label, var))
+        recv = ''.join(m.group(1).split())
+        calls, end = self._chain(text, code, m.end())
+        names = [c[0] for c in calls]
+        if names != ['iter', 'position'] or text[end:end + 2] != '?;':
+            raise LostAnchor('rule R14 in %s: chain is %s, expected iter/position followed by ?;' % (self.label, names))
+        fm = re.match(r'\s*\|(\w+)\|\s*(.*)$', calls[1][1], re.S)
+        if not fm:
+            raise LostAnchor('rule R14 in %s: closure shape' % self.label)
+        ind = re.match(r'[ \t]*', text[_line_start(text, m.start()):]).group(0)
+        new = ('let mut %s__found: Option<usize> = None;\n%sfor i__ in 0..%s.len() {\n%s    let %s = &%s[i__];\n%s    if %s__found.is_none() && (%s) { %s__found = Some(i__); }\n%s}\n%slet %s = %s__found?;'
+               % (var, ind, recv, ind, fm.group(1), recv, ind, var, fm.group(2).strip(), var, ind, ind, var, var))
+        self.text = text[:m.start()] + new + text[end + 2:]
+        self._fired('R14', 'iter().position(..)? -> loop remembering the first accepted index')
+        return self
 
     def R10(self, method, param_ty, annotate):
         """`.method(|p| BODY)` -> `.method(|p: TY| -> (r: bool) <clauses(i)> { BODY })`: the closure gets a type annotation, a named
